@@ -23,7 +23,7 @@ use std::collections::HashMap;
 pub static DEF: PropDef = PropDef {
     id: "C02",
     level: "exploration",
-    rule: "a victim instance, member of two rooms, pulls room R from a harness-controlled serving peer; each batch mixes honest rows with rows that must be refused: signed by an outsider, by a member disabled at the row's date, by a member with own-rows only replacing or deleting another author's row, carrying another room id, an unknown entity, a model-violating or oversized JSON, a tampered field, a system entity through the data path, references whose source row is in another room or in no room (another room's definition row), deletion records by authors without the right; batches are shuffled. Oracle per row from the independent rights model; a row that must be refused must leave no trace, whatever else is in the batch; once per case the decisions of the other room are compared before/after and after a restart. non-trivial = batch with at least one row the oracle accepts and one it rejects, of two kinds; distinct = set of row kinds of the batch Also offered: a row of the second room moved into the room under test by an author entitled in both rooms (must be stored) and by an author who has lost the right in the room it leaves (must not); rows of a wrong entity announced under another entity so that they travel in the same answer as honest rows.",
+    rule: "a victim instance, member of two rooms, pulls room R from a harness-controlled serving peer; each batch mixes honest rows with rows that must be refused: signed by an outsider, by a member disabled at the row's date, by a member with own-rows only replacing or deleting another author's row, carrying another room id, an unknown entity, a model-violating or oversized JSON, a tampered field, a system entity through the data path, references whose source row is in another room or in no room (another room's definition row), deletion records by authors without the right; batches are shuffled. Oracle per row from the independent rights model; a row that must be refused must leave no trace, whatever else is in the batch; once per case the decisions of the other room are compared before/after and after a restart. non-trivial = batch with at least one row the oracle accepts and one it rejects, of two kinds; distinct = set of row kinds of the batch Also offered: a row of the second room moved into the room under test by an author entitled in both rooms (must be stored) and by an author who has lost the right in the room it leaves (must not); rows of a wrong entity announced under another entity so that they travel in the same answer as honest rows. A deletion record for another author's row whose version date differs from the stored one by a millisecond.",
     assumptions: &[
         "safety direction only: a row that should be stored but is dropped (e.g. because a companion row made the signature check of the whole answer fail) is not reported here",
         "entity short names: 0=Person 1=Pet 2.0=ns.Thing 0.0=sys.Room 0.2=sys.UserAuth",
